@@ -240,6 +240,69 @@ fn run_case(seq: &[(Op, u64)], horizon: u64, trace: bool) -> CaseResult {
     res
 }
 
+// ---------------------------------------------------------------- follow-ups for an instance that stays unresolved
+
+/// A browse finds an instance by its PTR alone.  x = [offset of the PTR after the browse,
+/// 0 nothing else ever arrives / 1 SRV+TXT arrive with the first follow-up but the address never,
+/// 0 PTR once / 1 the same PTR again 300 ms later].  At most three follow-up queries for the instance
+/// (then for its host), at least half a second apart.
+fn run_followups(x: &[u64], trace: bool) -> CaseResult {
+    let mut res = CaseResult::default();
+    let mut w = World::one(lay_v4());
+    w.trace = trace;
+    w.ds[0].h.set_ip_check_interval(0).unwrap();
+    w.poke(0);
+    let rx = w.ds[0].h.browse("_t._tcp.local.").unwrap();
+    w.add_browse(0, rx);
+    w.poke(0);
+    let i = Inst::simple("lonely", "lonelyhost", [10, 0, 0, 9]);
+    w.advance([100u64, 600, 1400][x[0] as usize]);
+    let t_found = w.now;
+    w.deliver(0, IF0, PEER0, build(&response(vec![i.ptr(120)])));
+    if x[2] == 1 {
+        w.advance(300);
+        w.deliver(0, IF0, PEER0, build(&response(vec![i.ptr(120)])));
+    }
+    let end = t_found + 60_000;
+    let mut seen = 0usize;
+    let mut answered = false;
+    loop {
+        // variant 1: the first question about the instance is answered with SRV and TXT only
+        if x[1] == 1 && !answered {
+            let asked = w.log[seen..].iter().any(|e| matches!(&e.kind, Kind::Out(o) if o.msg.as_ref().is_ok_and(|m| !m.is_response() && m.questions.iter().any(|q| name_eq_ci(&q.name, &i.inst)))));
+            seen = w.log.len();
+            if asked {
+                answered = true;
+                w.deliver(0, IF0, PEER0, build(&response(vec![i.srv(120), i.txt(120)])));
+                continue;
+            }
+        }
+        if !w.wake_next(end) {
+            break;
+        }
+    }
+    let all = outs(&w, 0, 0);
+    for (what, nm) in [("instance", &i.inst), ("host", &i.host)] {
+        let times: Vec<u64> = all.iter().filter(|(t, o)| *t >= t_found && o.msg.as_ref().is_ok_and(|m| !m.is_response() && m.questions.iter().any(|q| name_eq_ci(&q.name, nm)))).map(|(t, _)| *t).collect();
+        res.count("follow_up_chains_checked", 1);
+        let rel: Vec<f64> = times.iter().map(|t| (*t - t_found) as f64 / 1000.0).collect();
+        if times.len() > 3 {
+            res.viols.push(viol(format!("C19|more-than-three-follow-up-queries|{what}"), format!("{} queries about the {what} at {:?} s after it was found", times.len(), rel)));
+        }
+        if times.windows(2).any(|p| p[1] - p[0] < 500) {
+            res.viols.push(viol(format!("C19|follow-up-queries-less-than-half-a-second-apart|{what}"), format!("at {:?} s", rel)));
+        }
+    }
+    if let Some(f) = daemon_fault(&w, 0) {
+        res.viols.push(viol("C19|daemon-fault", f));
+    }
+    res.nontrivial = true;
+    res.transitions = w.steps;
+    res.outcome = outcome_hash(&w.log);
+    res.states = final_states(&w);
+    res
+}
+
 pub fn check(tier: &str) -> i32 {
     let mut rep = Report::new("C19", tier, "model_checking");
     let thorough = rep.thorough();
@@ -279,5 +342,15 @@ pub fn check(tier: &str) -> i32 {
     rep.run_part(&part, Duration::from_secs(if thorough { 3000 } else { 50 }));
     rep.require("search-combinations-3-days", "scheduled_queries_matched");
     rep.require("search-combinations-3-days", "exempt_refresh_queries");
+    let fdims = [3u64, 2, 2];
+    let fu = FnPart {
+        name: "follow-ups-for-an-unresolved-instance".into(),
+        rule: "a browse finds an instance by its PTR alone (0.1 / 0.6 / 1.4 s after the browse) x (nothing else ever arrives | SRV and TXT arrive with the first follow-up, the address never) x (PTR once | again 300 ms later); over 60 s at most three queries about the instance, and about its host, at least half a second apart".into(),
+        n: product(&fdims),
+        describe: Box::new(move |i| format!("{:?}", unrank(i, &fdims))),
+        run: Box::new(move |i, tr| run_followups(&unrank(i, &fdims), tr)),
+    };
+    rep.run_part(&fu, Duration::from_secs(60));
+    rep.require("follow-ups-for-an-unresolved-instance", "follow_up_chains_checked");
     rep.finish()
 }
